@@ -99,6 +99,53 @@ var c31Alphabet = []c31Op{
 	{Kind: "subscribers", Arg: "a/b"}, {Kind: "messages", Arg: "a/+"}, {Kind: "messages", Arg: "a/b"},
 }
 
+// A second universe ("deep") nests the addresses three levels deep (a, a/b, a/b/c), so
+// that removing an emptied leaf walks up through ancestors that hold only a retained
+// message or only a subscription: trim must stop at the first of them.
+var c31FlatElems, c31FlatAlphabet = c31Elems, c31Alphabet
+
+var c31DeepElems = []c31Elem{
+	{Kind: 'p', Client: "c1", Filter: "a/b/c"},
+	{Kind: 'p', Client: "c2", Filter: "a/b"},
+	{Kind: 'i', ID: 1, Filter: "a/b/c"},
+	{Kind: 'r', Filter: "a"},
+	{Kind: 'r', Filter: "a/b"},
+	{Kind: 'r', Filter: "a/b/c"},
+}
+
+var c31DeepAlphabet = []c31Op{
+	{Kind: "sub", Elem: 0}, {Kind: "sub", Elem: 1}, {Kind: "unsub", Elem: 0}, {Kind: "unsub", Elem: 1},
+	{Kind: "isub", Elem: 2}, {Kind: "iunsub", Elem: 2},
+	{Kind: "retain", Elem: 3, Payload: "p"}, {Kind: "retain", Elem: 3, Payload: ""}, {Kind: "retain", Elem: 4, Payload: "q"}, {Kind: "retain", Elem: 4, Payload: ""}, {Kind: "retain", Elem: 5, Payload: "s"}, {Kind: "retain", Elem: 5, Payload: ""},
+	{Kind: "subscribers", Arg: "a/b/c"}, {Kind: "messages", Arg: "#"}, {Kind: "messages", Arg: "a/+"}, {Kind: "messages", Arg: "+"},
+}
+
+var c31FlatFinals = []c31Op{{Kind: "subscribers", Arg: "a/b"}, {Kind: "messages", Arg: "a/+"}, {Kind: "messages", Arg: "a/b"}, {Kind: "messages", Arg: "a/c"}}
+var c31DeepFinals = []c31Op{{Kind: "subscribers", Arg: "a/b/c"}, {Kind: "subscribers", Arg: "a/b"}, {Kind: "messages", Arg: "#"}, {Kind: "messages", Arg: "+/+"}, {Kind: "messages", Arg: "a"}, {Kind: "messages", Arg: "a/b"}, {Kind: "messages", Arg: "a/b/c"}}
+
+var c31DeepInits = map[string][]int{
+	"leaf+top":  {0, 6},              // c1 a/b/c, retained a=p
+	"leaf+mid":  {4, 8},              // inline 1 a/b/c, retained a/b=q
+	"rleaf+top": {10, 6},             // retained a/b/c=s, retained a=p
+	"leaf+sub":  {0, 1},              // c1 a/b/c, c2 a/b
+	"all":       {0, 1, 4, 6, 8, 10}, // everything
+}
+
+// c31Finals: the driver's sequential final reads; c31AllRetained: the index of the one
+// that covers every retained element through the trie (compared with the Retained map).
+var c31Finals, c31AllRetained, c31Inits = c31FlatFinals, 1, c31InitsFlat
+
+// c31Use selects the universe named by a scenario argument ("deep/<rest>" or "<rest>")
+// and returns <rest>. Executions are sequential within a process.
+func c31Use(arg string) string {
+	if rest, ok := strings.CutPrefix(arg, "deep/"); ok {
+		c31Elems, c31Alphabet, c31Finals, c31AllRetained, c31Inits = c31DeepElems, c31DeepAlphabet, c31DeepFinals, 2, c31DeepInits
+		return rest
+	}
+	c31Elems, c31Alphabet, c31Finals, c31AllRetained, c31Inits = c31FlatElems, c31FlatAlphabet, c31FlatFinals, 1, c31InitsFlat
+	return arg
+}
+
 // covers: the elements a read observes, by MQTT matching.
 func (o c31Op) covers() []int {
 	var out []int
@@ -401,7 +448,7 @@ func (p c31Prog) String() string {
 	return "init{" + f(p.Init) + "} " + strings.Join(th, " || ")
 }
 
-var c31Inits = map[string][]int{
+var c31InitsFlat = map[string][]int{
 	"empty": {},
 	"full":  {0, 1, 2, 6, 8}, // c1 a/b, c2 a/+, c1 $share/g/a/b, inline 1 a/b, retained a/b=p
 	"some":  {0, 10},         // c1 a/b, retained a/c=q
@@ -412,7 +459,7 @@ var c31Inits = map[string][]int{
 // programs that contain at least one query and one update (the others have no
 // unsynchronised step: every update holds the root lock from start to end).
 func c31Programs(arg string) []c31Prog {
-	f := strings.Split(arg, ":")
+	f := strings.Split(c31Use(arg), ":")
 	shape, init := f[0], c31Inits[f[1]]
 	needRW := len(f) > 2 && f[2] == "r"
 	n := len(c31Alphabet)
@@ -563,6 +610,7 @@ func c31FoundString(found map[int]string) string {
 func c31Run(arg string) explore.RunFn {
 	progs := c31Programs(arg)
 	return func(prefix []int) explore.Outcome {
+		c31Use(arg)
 		x := zzvrt.Begin(prefix)
 		x.SetExploring(true)
 		x.EnvSite = func(site string) bool { return site == "c31-program" }
@@ -609,7 +657,7 @@ func c31Run(arg string) explore.RunFn {
 		o.Viol = append(o.Viol, execViolations(x)...)
 		final := clock
 		// final reads: the whole observable content, sequentially
-		for _, op := range []c31Op{{Kind: "subscribers", Arg: "a/b"}, {Kind: "messages", Arg: "a/+"}, {Kind: "messages", Arg: "a/b"}, {Kind: "messages", Arg: "a/c"}} {
+		for _, op := range c31Finals {
 			c := c31Call{Op: op, Thread: -1, Call: clock}
 			clock++
 			res, prob := ix.exec(op)
@@ -629,15 +677,15 @@ func c31Run(arg string) explore.RunFn {
 				}
 			}
 		}
-		if got, want := c31FoundString(stored), hist[len(hist)-3].Res; got != want {
-			problems = append(problems, fmt.Sprintf("Retained map holds {%s} but Messages(a/+) reports {%s} at quiescence", got, want))
+		if all := hist[len(hist)-len(c31Finals)+c31AllRetained]; c31FoundString(stored) != all.Res {
+			problems = append(problems, fmt.Sprintf("Retained map holds {%s} but %s reports {%s} at quiescence", c31FoundString(stored), all.Op, all.Res))
 		}
 		if len(o.Viol) == 0 {
 			if len(problems) > 0 {
 				o.Viol = append(o.Viol, explore.Violation{Key: "read-returns-unknown-or-inconsistent-entry", Msg: fmt.Sprintf("program %s: %s", prog, strings.Join(problems, "; ")), Trace: c31Trace(hist)})
 			}
 			key := c31Classify(init, hist, final)
-			if len(hist) <= 8 {
+			if len(hist) <= 4+len(c31Finals) {
 				if bf := c31BruteForce(init, hist, c31Lenient{}); bf != (key == "") {
 					o.Viol = append(o.Viol, explore.Violation{Key: "internal:linearizability-checkers-disagree", Msg: fmt.Sprintf("program %s: search says %q, permutation enumeration says linearizable=%v", prog, key, bf), Trace: c31Trace(hist)})
 				}
@@ -648,7 +696,7 @@ func c31Run(arg string) explore.RunFn {
 			}
 		}
 		// non-vacuity: overlapping calls, a read overlapping an update
-		for i := range hist[:len(hist)-4] {
+		for i := range hist[:len(hist)-len(c31Finals)] {
 			for j := range hist[:i] {
 				a, b := hist[i], hist[j]
 				if a.Thread != b.Thread && a.Call < b.Ret && b.Call < a.Ret {
@@ -684,6 +732,7 @@ func init() {
 		c.Rep.Level = "model_checking"
 		c.Rep.Assumption("threads are serialised by the cooperative scheduler (sequentially consistent interleavings only); scheduling points: every Lock/RLock of the index (root, node, per-node maps, retained map); plain field accesses (retainPath) happen atomically with the preceding lock operation, which still yields every SC order of them")
 		c.Rep.Assumption("model: set of (client, filter) subscriptions, set of inline (id, filter), map topic -> payload; matching by ref.Match (MQTT 4.7); the return value of RetainMessage is not judged (not part of the property)")
+		c.Rep.Assumption("second universe (deep/...): subscriptions on a/b/c (client, inline) and a/b, retained messages on a, a/b, a/b/c, queries Subscribers(a/b/c), Messages(#), Messages(a/+), Messages(+); five initial contents in which a leaf's ancestors hold only a retained message or only a subscription; final reads go through the trie with wildcards as well as exact topics")
 		c.Rep.Assumption("alphabet restricted to filters a/b, a/+, $share/g/a/b and topics a/b, a/c, on which the pinned sequential matcher and MQTT matching agree, so only concurrency effects and the existed/new reports are judged")
 		a := newDfsAgg(c)
 		pb := func(n int) explore.Bounds { return explore.Bounds{Preempt: n, Env: 1} }
@@ -694,6 +743,9 @@ func init() {
 			a.run("c31", "3x1:some:r", []explore.Bounds{pb(1), pb(2)}, 10*time.Second)
 			a.run("c31", "2x2:full:r", []explore.Bounds{pb(1), pb(2)}, 18*time.Second)
 			a.run("c31", "2x2:empty:r", []explore.Bounds{pb(1), pb(2)}, 14*time.Second)
+			for _, in := range []string{"leaf+top", "leaf+mid", "rleaf+top", "leaf+sub", "all"} {
+				a.run("c31", "deep/2x1:"+in, []explore.Bounds{pb(1), pb(2)}, 5*time.Second)
+			}
 		} else {
 			for _, in := range []string{"full", "empty", "some"} {
 				a.run("c31", "2x1:"+in, []explore.Bounds{pb(3), pb(4), pb(5)}, 40*time.Second)
@@ -703,6 +755,10 @@ func init() {
 			}
 			for _, in := range []string{"full", "empty", "some"} {
 				a.run("c31", "2x2:"+in, []explore.Bounds{pb(2), pb(3)}, 110*time.Second)
+			}
+			for _, in := range []string{"leaf+top", "leaf+mid", "rleaf+top", "leaf+sub", "all"} {
+				a.run("c31", "deep/2x1:"+in, []explore.Bounds{pb(3), pb(4)}, 30*time.Second)
+				a.run("c31", "deep/2x2:"+in+":r", []explore.Bounds{pb(1), pb(2)}, 60*time.Second)
 			}
 		}
 		a.requireCounters("overlapping_call_pairs", "read_overlapping_update", "cross_checked_by_permutation_enumeration")
